@@ -1,5 +1,5 @@
 SPECIFICATION Spec
-CONSTANTS S1 = 3 S2 = 2 S3 = 2  MaxV = 1  Start = "Mask"  Strict = FALSE  Cross = FALSE  Close = FALSE  LabelBoundary = FALSE
+CONSTANTS S1 = 3 S2 = 2 S3 = 2  MaxV = 1  Start = "Mask"  Strict = FALSE  Cross = FALSE  Close = FALSE  LabelBoundary = FALSE  RankByArray = FALSE  Coarse = 1
 CHECK_DEADLOCK FALSE
 INVARIANT ErosionIsBoundary
 INVARIANT CoordsAreBoundary
